@@ -129,6 +129,8 @@ def permute_theta(spec, theta, idx, n, d):
 def make_queries(p, rng):
     x, n, d = p["x"], p["n"], p["d"]
     span = np.where(np.ptp(x, axis=0) > 0, np.ptp(x, axis=0), 1.0)
+    if rng.random() < 0.12:
+        return x.copy()      # the training inputs themselves, all of them, in their order
     q = []
     for _ in range(int(rng.integers(1, 7))):
         kind = rng.choice(["at", "between", "near", "far"])
